@@ -26,6 +26,9 @@ CHECKS = {
  "C16": dict(cat="model_checking", design="DESIGN.md section 5 C16",
    technique="TLA+ spec Idents.tla (names as character sequences, predicate Legal per role, keyword table from the Rust Reference); every TLC-generated name x role compiled by the real compiler; recorded trace validated by TLC against Legal",
    text="TLC enumerates every legal ASN.1 name up to 5 (thorough 6) characters over {a,b,A,B,1,-} in each of six roles and every strict/reserved Rust keyword in each spelling and role (15 564 cases quick), plus a seeded sample of 24-character names; for each, the identifier and identifier annotation found in the generated bindings are validated against Legal: legal non-keyword Rust identifier, case rule of the role, ASN.1 name recoverable, annotation present and equal to the ASN.1 spelling whenever the identifier differs."),
+ "C02": dict(cat="model_checking", design="DESIGN.md section 5 C02",
+   technique="TLA+ generator spec Notation.tla (node-table grammar, WF invariants) simulated by TLC + exhaustive reference-topology spec RecGraph.tla; generated module sets compiled by the real compiler; one trace event per constructed type validated by TLC against RustShape.tla (stateful trace spec: reference closure per module set)",
+   text="Module sets are drawn by TLC's simulator from the grammar spec (seeded; quick about 800 sets / 1 900 constructed types) and, exhaustively, every reference topology of 2 (thorough: 3) constructed definitions comes from RecGraph.tla. For every SEQUENCE/SET/CHOICE/SEQUENCE OF/SET OF, also anonymous nested ones (the generated item is found by following field types, not names), TLC validates: one field/variant per component in source order, corresponding Rust type, Option iff OPTIONAL, default fn iff DEFAULT (exists, right type), set marking, boxes only on cycle edges, and no by-value containment cycle in the generated items. Sampling for the grammar part, exhaustive for the topology part."),
 }
 
 NOT_BUILT = "check not built yet (DESIGN.md section 13 build order)"
